@@ -32,7 +32,7 @@ vars == <<bound, closing, running, at, opened, foreign, outcome, dirty>>
 Held == foreign \cup UNION {bound[o] \cup closing[o] : o \in Objects}
 \* the life-cycle record of object o as Bridge.tla sees it
 Rec(o) == [ports |-> PortLists[o], running |-> running[o], bound |-> bound[o], closing |-> closing[o],
-           occupied |-> Held \ (bound[o] \cup closing[o])]
+           occupied |-> Held \ (bound[o] \cup closing[o]), limbo |-> {}]
 
 Init == /\ bound = [o \in Objects |-> {}] /\ closing = [o \in Objects |-> {}] /\ running = [o \in Objects |-> FALSE]
         /\ at = [o \in Objects |-> 0] /\ opened = [o \in Objects |-> {}] /\ foreign = {}
